@@ -51,6 +51,11 @@ CLAIMED = {
     text="Every with_*/..._sim derivation of EmulatorInstance (and the replace-based ones of EmulatorBuilder) is executed on a concrete object graph with symbolic leaves and real aliasing: the result is a new instance differing from old(self) only in the named option; a heap snapshot proves that no field of any object reachable from self changes (modifies-nothing), *_sim create a simulator object that did not exist before and is not shared between two derivations; _run_instance passes every option to the keyword of the same meaning. with_seed's write to the shared simulator is the known finding; all its other frame clauses are proved.",
     note="selene constructors modelled as fresh-record constructors; reproducibility of run() follows from the frames plus the assumed functional behaviour of selene's run_shots.",
     technique="deductive: symbolic execution with an explicit heap (object identity, snapshot frames) of the real methods; z3 for leaf equalities"),
+ "C21": dict(
+    category="proof", design_ref="DESIGN.md §6 C21",
+    text="Dispatch layer only: each of the 50 DunderMixin methods is executed with its real body and must request the traced object's method of its own name with the same arguments; the real binary_operation wrapper is executed in three scenarios per sample operator (own method succeeds / fails and the reflected method of the other operand is called with swapped operands / both fail and a GuppyTypeError carries the operand types in source order); tables are compared with the regular-mode tables of expr_checker; the decorator placement is checked per method; the mocked int/float/len are executed for GuppyObject and plain arguments. Together with C04's proof of the regular-mode dispatch this gives identical operator resolution in both modes.",
+    note="does not cover values computed (both modes call the same definitions), unpack_guppy_object/guppy_object_from_py, trace_call; decorators functools.wraps/capture_guppy_errors treated as transparent.",
+    technique="deductive: symbolic execution of the real mixin methods and wrappers with mocked tracing state; finite complete case splits"),
 }
 
 NOT_APPLICABLE = {
